@@ -1343,3 +1343,187 @@ Lemma func3_err : forall (A : Type) (f : str -> str -> str -> fres A) args,
 Proof.
   intros A f args H. destruct args as [|[a|] [|[b|] [|[c|] [|d r]]]]; try reflexivity. discriminate.
 Qed.
+
+(* ------------------------------------------------------------------ *)
+(* Part 9: declarative reading of the specification, keyGet <-> keyMatch, refuted lemmas *)
+
+Definition good_val (v : str) : bool := nonempty v && slash_free v.
+
+Lemma fill_str_vals : forall l st s vs, fill_str l st s = Some vs -> forallb good_val vs = true.
+Proof.
+  induction l as [|sg r IH]; intros st s vs H; cbn [fill_str] in H.
+  - destruct st.
+    + destruct s as [|c s1]; [discriminate|]. destruct (Ascii.eqb c "/"); [|discriminate].
+      inversion H; subst. reflexivity.
+    + destruct s; [|discriminate]. inversion H; subst. reflexivity.
+  - destruct s as [|c s1]; [discriminate|]. destruct (Ascii.eqb c "/"); [|discriminate].
+    destruct (span_ns s1) as [v s2] eqn:Es. destruct (span_ns_spec _ _ _ Es) as (_ & Hv & _).
+    destruct sg as [x|n].
+    + destruct (str_eqb x v); [|discriminate]. exact (IH _ _ _ H).
+    + destruct (nonempty v) eqn:Hne; [|discriminate].
+      destruct (fill_str r st s2) as [vs'|] eqn:E2; [|discriminate]. inversion H; subst.
+      cbn [forallb]. unfold good_val at 1. rewrite Hne, Hv, (IH _ _ _ E2). reflexivity.
+Qed.
+
+Lemma at_seg_end_inst : forall r vs (st : bool) tail,
+  at_seg_end (inst r vs ++ (if st then "/" :: tail else [])).
+Proof.
+  intros [|sg r] vs st tail; cbn [inst app].
+  - destruct st; [right; eexists; reflexivity|left; reflexivity].
+  - destruct sg as [x|n]; [right; eexists; reflexivity|].
+    destruct vs; right; eexists; reflexivity.
+Qed.
+
+Theorem inst_fill_str : forall l (st : bool) vs tail,
+  lits_slash_free l = true -> List.length vs = List.length (names_of l) ->
+  forallb good_val vs = true ->
+  fill_str l st (inst l vs ++ (if st then "/" :: tail else [])) = Some vs.
+Proof.
+  induction l as [|sg r IH]; intros st vs tail Hl Hlen Hv.
+  - destruct vs; [|discriminate]. destruct st; reflexivity.
+  - cbn in Hl. apply andb_true_iff in Hl. destruct Hl as [Hsg Hl]. fold (lits_slash_free r) in Hl.
+    destruct sg as [x|n]; cbn [names_of] in Hlen.
+    + cbn [inst app fill_str]. rewrite Ascii.eqb_refl. rewrite <- app_assoc.
+      rewrite (span_ns_app x _ Hsg (at_seg_end_inst r vs st tail)).
+      rewrite str_eqb_refl. apply IH; assumption.
+    + destruct vs as [|v vs']; [discriminate|]. cbn [forallb] in Hv.
+      apply andb_true_iff in Hv. destruct Hv as [Hv Hvs]. unfold good_val in Hv.
+      apply andb_true_iff in Hv. destruct Hv as [Hne Hsf].
+      cbn [inst app fill_str]. rewrite Ascii.eqb_refl. rewrite <- app_assoc.
+      rewrite (span_ns_app v _ Hsf (at_seg_end_inst r vs' st tail)). rewrite Hne.
+      rewrite (IH st vs' tail Hl); [reflexivity| |exact Hvs]. cbn in Hlen. lia.
+Qed.
+
+(* a path matches iff it is the pattern with every placeholder replaced by a non-empty '/'-free
+   text, followed — under a trailing wildcard — by "/" and anything *)
+Theorem seg_match_iff : forall sy p path, wf_pattern sy p = true ->
+  (seg_match p path = true <->
+   exists vs tail,
+     List.length vs = List.length (names_of (segs p)) /\ forallb good_val vs = true /\
+     path = inst (segs p) vs ++ (if star p then "/" :: tail else [])).
+Proof.
+  intros sy p path Hwf. rewrite seg_match_fill_str. split.
+  - destruct (fill_str (segs p) (star p) path) as [vs|] eqn:E; [intros _|discriminate].
+    destruct (fill_str_inst _ _ _ _ E) as [tail Et]. exists vs, tail.
+    split; [exact (fill_str_length _ _ _ _ E)|]. split; [exact (fill_str_vals _ _ _ _ E)|exact Et].
+  - intros (vs & tail & Hlen & Hv & Ep). subst path.
+    rewrite (inst_fill_str (segs p) (star p) vs tail (wf_lits_slash_free sy _ Hwf) Hlen Hv).
+    reflexivity.
+Qed.
+
+(* --- keyGetN names a non-empty value exactly when keyMatchN holds --- *)
+
+Lemma first_binding_good : forall name ns vs,
+  existsb (str_eqb name) ns = true -> List.length vs = List.length ns ->
+  forallb good_val vs = true -> nonempty (first_binding name ns vs) = true.
+Proof.
+  intros name. induction ns as [|n ns IH]; intros vs Hin Hlen Hv; [discriminate|].
+  destruct vs as [|v vs]; [discriminate|]. cbn [first_binding existsb forallb] in *.
+  apply andb_true_iff in Hv. destruct Hv as [Hv Hvs].
+  destruct (str_eqb name n).
+  - unfold good_val in Hv. apply andb_true_iff in Hv. tauto.
+  - cbn [orb] in Hin. apply IH; [exact Hin|cbn in Hlen; lia|exact Hvs].
+Qed.
+
+Lemma seg_fill_good : forall p path vs, seg_fill p path = Some vs ->
+  List.length vs = List.length (names_of (segs p)) /\ forallb good_val vs = true.
+Proof.
+  intros [l st] path vs H. rewrite <- fill_str_seg_fill in H. cbn [segs].
+  split; [exact (fill_str_length _ _ _ _ H)|exact (fill_str_vals _ _ _ _ H)].
+Qed.
+
+Theorem keyGet2_iff_match : forall p path name,
+  wf_pattern SColon p = true -> nl_free path = true ->
+  existsb (str_eqb name) (names_of (segs p)) = true ->
+  (keyGet2 path (print SColon p) name <> Some [] <-> keyMatch2 path (print SColon p) = Some true).
+Proof.
+  intros p path name Hwf Hnl Hin.
+  rewrite (keyGet2_spec p path name Hwf Hnl), (keyMatch2_spec p path Hwf Hnl). unfold seg_match.
+  destruct (seg_fill p path) as [vs|] eqn:E.
+  - destruct (seg_fill_good p path vs E) as [Hlen Hv].
+    pose proof (first_binding_good name _ vs Hin Hlen Hv) as Hne.
+    split; [reflexivity|]. intros _ C. inversion C as [C']. rewrite C' in Hne. discriminate.
+  - split; [intro C; exfalso; apply C; reflexivity|discriminate].
+Qed.
+
+Theorem keyGet3_iff_match : forall p path name,
+  wf_pattern SBrace p = true -> nl_free path = true ->
+  existsb (str_eqb name) (names_of (segs p)) = true ->
+  (keyGet3 path (print SBrace p) name <> Some [] <-> keyMatch3 path (print SBrace p) = Some true).
+Proof.
+  intros p path name Hwf Hnl Hin.
+  rewrite (keyGet3_spec p path name Hwf Hnl), (keyMatch3_spec p path Hwf Hnl). unfold seg_match.
+  destruct (seg_fill p path) as [vs|] eqn:E.
+  - destruct (seg_fill_good p path vs E) as [Hlen Hv].
+    pose proof (first_binding_good name _ vs Hin Hlen Hv) as Hne.
+    split; [reflexivity|]. intros _ C. inversion C as [C']. rewrite C' in Hne. discriminate.
+  - split; [intro C; exfalso; apply C; reflexivity|discriminate].
+Qed.
+
+(* consistent = any two placeholders with the same name carry the same value *)
+Lemma agree_with_spec : forall n v ns vs, agree_with n v ns vs = true ->
+  forall j v', nth_error ns j = Some n -> nth_error vs j = Some v' -> v = v'.
+Proof.
+  intros n v. induction ns as [|n' ns IH]; intros vs H j v' Hn Hv; [destruct j; discriminate|].
+  destruct vs as [|w vs]; [destruct j; discriminate|]. cbn [agree_with] in H.
+  apply andb_true_iff in H. destruct H as [H1 H2]. destruct j as [|j]; cbn [nth_error] in *.
+  - inversion Hn; subst. inversion Hv; subst. rewrite str_eqb_refl in H1. apply str_eqb_eq. exact H1.
+  - exact (IH vs H2 j v' Hn Hv).
+Qed.
+
+Theorem consistent_spec : forall ns vs, consistent ns vs = true ->
+  forall i j n v v', nth_error ns i = Some n -> nth_error ns j = Some n ->
+                     nth_error vs i = Some v -> nth_error vs j = Some v' -> v = v'.
+Proof.
+  induction ns as [|n0 ns IH]; intros vs H i j n v v' Hi Hj Vi Vj; [destruct i; discriminate|].
+  destruct vs as [|v0 vs]; [destruct i; discriminate|]. cbn [consistent] in H.
+  apply andb_true_iff in H. destruct H as [H1 H2].
+  destruct i as [|i]; destruct j as [|j]; cbn [nth_error] in *.
+  - congruence.
+  - inversion Hi; subst. inversion Vi; subst. exact (agree_with_spec _ _ _ _ H1 j v' Hj Vj).
+  - inversion Hj; subst. inversion Vj; subst. symmetry. exact (agree_with_spec _ _ _ _ H1 i v Hi Vi).
+  - exact (IH vs H2 i j n v v' Hi Hj Vi Vj).
+Qed.
+
+(* --- outside the guards --- *)
+From Coq Require Import String.
+
+Definition lit (s : String.string) : seg := Lit (String.list_ascii_of_string s).
+Definition txt (s : String.string) : str := String.list_ascii_of_string s.
+Arguments lit s%string_scope.
+Arguments txt s%string_scope.
+
+(* a line feed under the trailing wildcard: KeyMatch2 (regexp `.`) says no, KeyMatch says yes *)
+Lemma keyMatch2_newline_refuted : exists p path,
+  wf_pattern SColon p = true /\ nl_free path = false /\
+  keyMatch2 path (print SColon p) <> Some (seg_match p path).
+Proof.
+  exists {| segs := [lit "a"]; star := true |}, (txt "/a/b" ++ [nl] ++ txt "c").
+  vm_compute. repeat split; discriminate.
+Qed.
+
+(* a regexp metacharacter in a literal: "/a.b" accepts "/axb" *)
+Lemma keyMatch2_meta_refuted : exists p path,
+  wf_pattern SColon p = false /\ nl_free path = true /\
+  keyMatch2 path (print SColon p) <> Some (seg_match p path).
+Proof.
+  exists {| segs := [lit "a.b"]; star := false |}, (txt "/axb").
+  vm_compute. repeat split; discriminate.
+Qed.
+
+(* a '*' segment that is not last: "/*/b" accepts "/a/x/b" *)
+Lemma keyMatch2_inner_star_refuted : exists p path,
+  wf_pattern SColon p = false /\ nl_free path = true /\
+  keyMatch2 path (print SColon p) <> Some (seg_match p path).
+Proof.
+  exists {| segs := [lit "*"; lit "b"]; star := false |}, (txt "/a/x/b").
+  vm_compute. repeat split; discriminate.
+Qed.
+
+(* KeyMatch cuts the pattern at its first '*', wherever it is: "/a*" accepts "/ab" *)
+Lemma keyMatch_inner_star_refuted : exists p path,
+  wf_pattern SPlain p = false /\ keyMatch path (print SPlain p) <> seg_match p path.
+Proof.
+  exists {| segs := [lit "a*"]; star := false |}, (txt "/ab").
+  vm_compute. repeat split; discriminate.
+Qed.
